@@ -176,9 +176,36 @@ fn behaviour(p: &ProbePool, c: &LimCase, other_sig: Option<(&str, &str, &str)>) 
         let blob = hss::private_key_blob(&c.levels, ctr, &seed);
         let s = p.call(&json!({"op": "sign", "hash": hname(c.hash), "sk": gen::hex(&blob), "msg": gen::hex(b"c14 message"), "accept": true}));
         let l = p.call(&json!({"op": "lifetime", "hash": hname(c.hash), "sk": gen::hex(&blob)}));
-        signs.push(json!({"counter": ctr, "sign": s, "lifetime": l}));
+        // the build verifies what it just signed (under the public key of its own keygen)
+        let v = match (s["sig"].as_str(), kg["pk"].as_str()) {
+            (Some(sig), Some(pk)) => p.call(&json!({"op": "verify", "hash": hname(c.hash), "msg": gen::hex(b"c14 message"), "sig": sig, "pk": pk})),
+            _ => Value::Null,
+        };
+        signs.push(json!({"counter": ctr, "sign": s, "lifetime": l, "verify_own": v}));
     }
     out.insert("signs".into(), Value::Array(signs));
+    // many different messages under one cheap key: digests with every leading byte value etc.
+    if c.relation == "inside" && c.levels.iter().map(|l| l.1).sum::<u32>() <= 7 && kg["pk"].is_string() {
+        let blob = hss::private_key_blob(&c.levels, 1, &seed);
+        let mut digest = <sha2::Sha256 as sha2::Digest>::new();
+        let mut bad = Vec::new();
+        for k in 0..400u64 {
+            let msg = gen::hex(&gen::expand(k ^ (c.seed << 20), 1 + (k % 40) as usize));
+            let s = p.call(&json!({"op": "sign", "hash": hname(c.hash), "sk": gen::hex(&blob), "msg": msg, "accept": true}));
+            let ok = match s["sig"].as_str() {
+                Some(sig) => {
+                    sha2::Digest::update(&mut digest, sig.as_bytes());
+                    let v = p.call(&json!({"op": "verify", "hash": hname(c.hash), "msg": msg, "sig": sig, "pk": kg["pk"].clone()}));
+                    v["function"] == json!(true) && v["key_signature"] == json!(true) && v["key_verifier_signature"] == json!(true)
+                }
+                None => false,
+            };
+            if !ok && bad.len() < 3 {
+                bad.push(json!({"message": msg, "sign": s["r"].clone()}));
+            }
+        }
+        out.insert("batch".into(), json!({"signatures_sha256": gen::hex(&sha2::Digest::finalize(digest)), "not_signed_or_not_verified": bad}));
+    }
     if let Some((msg, sig, pk)) = other_sig {
         let v = p.call(&json!({"op": "verify", "hash": hname(c.hash), "msg": msg, "sig": sig, "pk": pk}));
         out.insert("verify_default_build_signature".into(), v);
@@ -272,7 +299,7 @@ pub fn check_case(default: &ProbePool, cfg: &ProbePool, c: &LimCase) -> Verdict 
         if d["keygen"]["sk"].as_str() != Some(&want_sk) || d["keygen"]["pk"].as_str() != Some(&want_pk) {
             return fail("default-build-disagrees-with-model", format!("default build keygen differs from the model for {}", what));
         }
-        for key in ["keygen", "keygen_aux", "signs"] {
+        for key in ["keygen", "keygen_aux", "signs", "batch"] {
             if b[key] != d[key] {
                 let detail = diff_path(&b[key], &d[key], key.to_string());
                 return fail(format!("inside-limits differs {}", detail.0), format!("inside its limits the constrained build behaves differently from the default build at {}: {} vs {} ({})", detail.0, detail.1, detail.2, what));
@@ -281,6 +308,17 @@ pub fn check_case(default: &ProbePool, cfg: &ProbePool, c: &LimCase) -> Verdict 
         // fully usable: sign ok at all counters, lifetime ok, verifies the default build's signature
         if !any_r(&b["signs"], "ok") || any_r(&b["signs"], "err") {
             return fail("inside-limits unusable", format!("a key inside the limits cannot sign / report its lifetime: {} ({})", b["signs"], what));
+        }
+        for s in b["signs"].as_array().unwrap() {
+            let v = &s["verify_own"];
+            if v["function"] != json!(true) || v["key_signature"] != json!(true) || v["key_verifier_signature"] != json!(true) {
+                return fail("inside-limits verify-own", format!("the constrained build rejects the signature it just made at counter {}: {} ({})", s["counter"], v, what));
+            }
+        }
+        if let Some(bad) = b["batch"]["not_signed_or_not_verified"].as_array() {
+            if !bad.is_empty() {
+                return fail("inside-limits batch", format!("the constrained build fails to sign or to verify its own signature for some messages: {} ({})", b["batch"]["not_signed_or_not_verified"], what));
+            }
         }
         let v = &b["verify_default_build_signature"];
         if v["function"] != json!(true) || v["key_signature"] != json!(true) || v["key_verifier_signature"] != json!(true) {
